@@ -62,6 +62,7 @@ type Dyn struct {
 	ElemOf  func(r *core.R) any // a random element (value containers) for workloads
 	JSONArr bool                // serializes as an array (value containers) / object (key-value containers)
 	Reads   func() []ReadOp     // read-only catalogue with sequential answers (C18)
+	Big     bool                // a deliberately large instance whose observers are expensive
 	// argument-slice aliasing probes (C16): each builds a NEW container from /
 	// adds a caller-owned slice and returns the container plus a function that
 	// scribbles over the caller's slice.
